@@ -1,6 +1,6 @@
 (* C14 — a clone is an equal and fully independent cache (abstract part; the shared-heap frame
    statement is Layer B, B/FrameB.v). *)
-Require Import LruV.T.TableA LruV.A.InvA LruV.B.FrameB.
+Require Import LruV.T.TableA LruV.A.InvA LruV.B.FrameB LruV.B.StepB LruV.B.RefineLemmas LruV.B.CloneB.
 
 Definition same_modulo_tokens (a b : entry) : Prop :=
   kid (ek a) = kid (ek b) /\ kheap (ek a) = kheap (ek b) /\ vtag (ev a) = vtag (ev b) /\ vheap (ev a) = vheap (ev b) /\ es a = es b.
@@ -63,6 +63,16 @@ Example C14_example :
   exists c evs, do_clone 72 s (fun t => t + 1000) = Some (c, evs) /\ map (fun e => (kid (ek e), ktok (ek e), es e)) (ents c) = [(1, 1001, 73); (2, 1002, 74)].
 Proof. cbv zeta. eexists _, _. split; vm_compute; reflexivity. Qed.
 
+(* clone() at pointer level, in ONE heap shared by the source and the copy: the walk from seal.prev along the prev
+   links, cloning each entry and linking it at the head of the new list at bucket addresses that are checked to be unused
+   by either cache, yields a coherent copy whose abstraction is Layer A's do_clone, while the source structure is still
+   coherent, still holds exactly its entries, and shares no node with the copy *)
+Theorem C14_pointer_level : forall E b seal_c addrs ren bc evs, RIg (bg b) -> bB_clone E b seal_c addrs ren = Some (bc, evs) ->
+  do_clone E (absB b) ren = Some (absB bc, evs) /\ RIg (bg bc) /\
+  RI (gh (bg bc)) (gseal (bg b)) (glist (bg b)) /\ absl (gh (bg bc)) (glist (bg b)) = absG (bg b) /\
+  (forall x, In x (gseal (bg b) :: glist (bg b)) -> ~ In x (gseal (bg bc) :: glist (bg bc))).
+Proof. exact clone_refines. Qed.
+
 Print Assumptions C14_equal.
 Print Assumptions C14_fresh.
 Print Assumptions C14_inv.
@@ -70,3 +80,4 @@ Print Assumptions C14_footprint_touch.
 Print Assumptions C14_footprint_remove.
 Print Assumptions C14_footprint_insert.
 Print Assumptions C14_independent.
+Print Assumptions C14_pointer_level.
